@@ -20,7 +20,8 @@ def lists(node, acc):
     if isinstance(node, dict):
         k = node.get("k") or []
         for i, c in enumerate(k):
-            acc.append((k, i))
+            if not (node.get("t") == "prop" and node.get("kind") == "get"):      # (a getter's function stays a function)
+                acc.append((k, i))
             lists(c, acc)
         for d in node.get("d") or []:
             lists(d, acc)
@@ -38,9 +39,11 @@ def reductions(prog):
             k, i = lists(root2, [])[n]
             node = k[i]
             t = node["t"]
-            stmt = t in ("expr", "var", "let", "const", "fdecl", "block", "if", "for", "return", "throw", "try", "switch", "break", "continue", "case", "forof", "evalcode")
+            stmt = t in ("expr", "var", "let", "const", "fdecl", "block", "if", "for", "return", "throw", "try", "switch", "break", "continue", "case", "forof", "evalcode", "varp", "letp", "constp")
+            if t in ("pel", "arr") or (t == "prop" and mode != "del"):
+                continue
             if mode == "del":
-                if not stmt or t == "case" and False:
+                if not stmt and t != "prop":
                     continue
                 # structural children (blocks of if/for/try) cannot be deleted, only emptied
                 del k[i]
@@ -51,7 +54,7 @@ def reductions(prog):
             else:
                 ci = 0 if mode == "child0" else 1
                 ch = node.get("k") or []
-                if stmt or len(ch) <= ci or not isinstance(ch[ci], dict) or ch[ci]["t"] in ("block", "case", "expr", "var", "let", "const", "return", "arr"):
+                if stmt or len(ch) <= ci or not isinstance(ch[ci], dict) or ch[ci]["t"] in ("block", "case", "expr", "var", "let", "const", "return", "arr", "prop"):
                     continue
                 if t in ("fn",):
                     continue
